@@ -1,6 +1,7 @@
 """C19 — topology queries are mutually consistent and rollback-safe: structural clauses."""
 from .. import expr as X
 from .. import query as Q
+from .. import rules_topo as T
 
 PUBLIC = ("GetReceiver", "CountDirections", "IsNeighbor")
 GRID_HELPERS = {"TOPOLOGY_HEXAGON": "get_neighbor_hexagon", "TOPOLOGY_SQUARE": "get_neighbor_square", "TOPOLOGY_TORUS": "get_neighbor_torus"}
@@ -46,18 +47,26 @@ def _store_targets(f):
 
 
 def run(ck, progs):
-    ck.not_decided = ("the arithmetic of CountDirections and of receiver validity for degenerate sizes (1xN, Nx1, 1x1 grids, one-region star): "
-                      "numeric facts over all sizes, outside this technique")
+    ck.not_decided = ("that the receiver id a grid helper computes for a valid move is the id of the cell it moved to (y * width + x), the probabilities of "
+                      "the random choices, and receiver validity for the one-region star / one-region rings")
     ck.rule("C19.1", "purity: everything reachable from GetReceiver / CountDirections / IsNeighbor writes only its own locals (a store through a "
                      "parameter counts as a store to whatever call sites bind to it); no function-static state; randomness comes only from "
                      "the calling LP's generator")
     ck.rule("C19.2", "the three query functions handle all eight geometries; GetReceiver and IsNeighbor use the same per-geometry helper")
     ck.rule("C19.3", "direction coverage: the directions each grid helper implements are all enumerated by IsNeighbor's loop for that geometry "
                      "and are exactly the candidates offered to the random choice")
+    ck.rule("C19.4", "the random choice tries every candidate: the loop that probes the (shuffled) candidates runs over all of them, leaves "
+                     "only with a valid receiver or after the last one, and the candidates are only permuted (copied, then swapped pairwise)")
+    ck.rule("C19.5", "CountDirections agrees with the fixed-direction queries: for the grids both are evaluated over the predicates they depend on "
+                     "(first/last column, first/last row, row parity: 24 attainable combinations, degenerate 1xN / Nx1 / 1x1 maps included) and must give "
+                     "the same number everywhere; for rings the count is the number of directions the helper answers; star, mesh and graph return the "
+                     "number of other regions / one / the length of the adjacency list")
     for cfg, P in progs.items():
         _purity(ck, P, cfg)
         _dispatch(ck, P, cfg)
         _directions(ck, P, cfg)
+        _probe_all(ck, P, cfg)
+        _counts(ck, P, cfg)
 
 
 def _purity(ck, P, cfg):
@@ -67,53 +76,158 @@ def _purity(ck, P, cfg):
     n = 0
     # which parameters does each function write through?
     writes_param = {}
+    first_store = {}
+    verdict = {}
     for name in sorted(reach):
         f = P.fn_opt(name)
         if f is None:
             continue
         n += 1
-        inst = "pure@%s" % name
         bad = None
+        unk = None
         for s, kind, what in _store_targets(f):
             if kind == "global":
                 bad = (s, "writes the shared variable `%s`" % what)
             elif kind == "param-pointee":
                 writes_param.setdefault(name, set()).add(what)
+                first_store.setdefault((name, what), s)
             elif kind == "local-pointee":
-                # pointer local: where does it point? accept pointers to locals only
-                bad = bad or None
+                # pointer local: where does it point?  only pointers to the function's own locals are private
+                for root_kind, root in _pointer_roots(f, what):
+                    if root_kind == "param":
+                        writes_param.setdefault(name, set()).add(root)
+                        first_store.setdefault((name, root), s)
+                    elif root_kind == "global":
+                        bad = (s, "writes the shared variable `%s` through the pointer `%s`" % (root, what))
+                    elif root_kind == "unknown":
+                        unk = (s, "stores through the pointer `%s` whose target is not recognised" % what)
+            elif kind == "unknown":
+                unk = (s, "stores to `%s`, a location not recognised" % what)
         for v in f.walk():
             if v.k == "VarDecl" and v.sc == "static_local":
                 bad = (v, "keeps state in the function-static `%s`" % v.name)
         for c in f.calls():
             if c.callee and c.callee not in topo and c.callee not in IO_OK and c.callee not in ("Random", "RandomRange", "RandomU64", "memcpy", "__builtin_memcpy", "__builtin___memcpy_chk", "list_size") and not c.d.get("builtin"):
-                if c.callee in ("malloc", "free", "memset", "va_start"):
+                if c.callee in ("malloc", "free", "memset", "va_start", "rs_malloc", "rs_free", "rs_calloc", "rs_realloc"):
                     bad = (c, "calls %s" % c.callee)
+        verdict[name] = (bad, unk)
+    ck.expect("C19.1", n, 10, "functions reachable from the topology queries")
+    # propagate parameter stores up the call graph: a callee that writes through a parameter bound to the caller's parameter
+    # makes the caller write through that one
+    bound = []
+    via = {}
+    changed = True
+    while changed:
+        changed = False
+        for callee in sorted(writes_param):
+            F = P.fn(callee)
+            idx = {p["name"]: i for i, p in enumerate(F.params)}
+            for c in P.callers(callee):
+                if c.fn.name not in reach:
+                    continue
+                for pn in sorted(writes_param[callee]):
+                    a = X.strip(X.callee_args(c)[idx[pn]])
+                    base = a
+                    while base is not None and base.k in ("UnaryOperator", "ArraySubscriptExpr", "MemberExpr"):
+                        base = X.strip(base.children[0])
+                    roots = []
+                    if base is not None and base.k == "DeclRefExpr":
+                        sc = base.d.get("sc")
+                        if sc == "param":
+                            roots = [("param", base.name)]
+                        elif sc == "local":
+                            roots = _pointer_roots(c.fn, base.name) if base.d.get("tp") else [("local", base.name)]
+                        else:
+                            roots = [("global", base.name)]
+                    else:
+                        roots = [("unknown", X.show(a))]
+                    for rk, r in roots:
+                        if rk == "param" and r not in writes_param.get(c.fn.name, set()):
+                            writes_param.setdefault(c.fn.name, set()).add(r)
+                            first_store.setdefault((c.fn.name, r), first_store.get((callee, pn), c))
+                            via[(c.fn.name, r)] = via.get((callee, pn), []) + [callee]
+                            changed = True
+                    bound.append((callee, pn, c, roots))
+    for name in sorted(verdict):
+        f = P.fn(name)
+        bad, unk = verdict[name]
+        inst = "pure@%s" % name
+        if not bad and name in PUBLIC and name in writes_param:
+            pn = sorted(writes_param[name])[0]
+            bad = (first_store[(name, pn)], "writes through its parameter `%s`%s, the topology shared by every LP and thread" % (pn, " (in %s)" % " <- ".join(via[(name, pn)]) if (name, pn) in via else ""))
         if bad:
             ck.violated("C19.1", inst, bad[0].where, "%s %s: the answer depends on earlier calls by other LPs / threads and is not repeated after a rollback" % (name, bad[1]), cfg)
+        elif unk:
+            ck.inconclusive("C19.1", inst, unk[0].where, "%s %s" % (name, unk[1]), cfg)
         else:
             ck.holds("C19.1", inst, f.where, "stores only to locals%s" % (" and through its parameter(s) %s (checked at call sites)" % sorted(writes_param[name]) if name in writes_param else ""), cfg)
-    ck.expect("C19.1", n, 10, "functions reachable from the topology queries")
-    # bind parameter stores at call sites
-    for callee, params in writes_param.items():
-        F = P.fn(callee)
-        idx = {p["name"]: i for i, p in enumerate(F.params)}
-        for c in P.callers(callee):
-            if c.fn.name not in reach:
-                continue
-            for pn in params:
-                a = X.strip(X.callee_args(c)[idx[pn]])
-                base = a
-                while base is not None and base.k in ("UnaryOperator", "ArraySubscriptExpr", "MemberExpr"):
-                    base = X.strip(base.children[0])
-                inst = "bound-store:%s(%s)@%s" % (callee, pn, c.fn.name)
-                if base is not None and base.k == "DeclRefExpr" and base.d.get("sc") not in ("local", "param"):
-                    ck.violated("C19.1", inst, c.where, "%s writes through its parameter `%s`, which this call binds to the shared array `%s`: concurrent callers race on it and the random choice depends on the order of earlier calls" % (callee, pn, base.name), cfg)
-                elif base is not None and base.k == "DeclRefExpr" and base.d.get("sc") == "param":
-                    writes_more = True
-                    ck.inconclusive("C19.1", inst, c.where, "store through a parameter forwarded from the caller's caller", cfg)
+    seen = set()
+    for callee, pn, c, roots in bound:
+        inst = "bound-store:%s(%s)@%s" % (callee, pn, c.fn.name)
+        if (inst, c.where) in seen:
+            continue
+        seen.add((inst, c.where))
+        g = [r for rk, r in roots if rk == "global"]
+        u = [r for rk, r in roots if rk == "unknown"]
+        pp = [r for rk, r in roots if rk == "param"]
+        if g:
+            ck.violated("C19.1", inst, c.where, "%s writes through its parameter `%s`, which this call binds to the shared array `%s`: concurrent callers race on it and the random choice depends on the order of earlier calls" % (callee, pn, g[0]), cfg)
+        elif u:
+            ck.inconclusive("C19.1", inst, c.where, "store through a parameter bound to `%s`, a location not recognised" % u[0], cfg)
+        elif pp:
+            ck.holds("C19.1", inst, c.where, "bound to the caller's parameter `%s` (propagated to %s's own call sites)" % (pp[0], c.fn.name), cfg)
+        else:
+            ck.holds("C19.1", inst, c.where, "bound to caller-local storage", cfg)
+
+
+def _pointer_roots(f, name, depth=0):
+    """Where may the local pointer `name` of f point?  [(kind, root)] with kind local / param / global / unknown."""
+    out = []
+    defs = []
+    for s in f.walk():
+        if s.k == "VarDecl" and s.name == name and s.sc != "param" and s.children:
+            defs.append(s.children[-1])
+        elif s.k == "BinaryOperator" and s.op == "=":
+            t = X.strip(s.children[0])
+            if t.k == "DeclRefExpr" and t.name == name and t.d.get("sc") == "local":
+                defs.append(s.children[1])
+    if not defs:
+        return [("unknown", name)]
+    for d in defs:
+        b = X.strip(d)
+        deref = False
+        addr = False
+        while b is not None and b.k in ("MemberExpr", "ArraySubscriptExpr", "UnaryOperator", "BinaryOperator", "ConditionalOperator", "StmtExpr"):
+            if b.k == "UnaryOperator" and b.op == "&":
+                addr = True
+            elif b.k == "UnaryOperator" and b.op not in ("*",):
+                break
+            elif b.k == "BinaryOperator":
+                if b.op not in ("+", "-"):
+                    break
+            elif b.k in ("ConditionalOperator", "StmtExpr"):
+                break
+            b = X.strip(b.children[0])
+        if b is None:
+            out.append(("unknown", X.show(d)))
+        elif X.is_zero(b) or (b.k in ("IntegerLiteral",)):
+            continue
+        elif b.k == "DeclRefExpr":
+            sc = b.d.get("sc")
+            if sc == "param":
+                out.append(("param", b.name) if b.d.get("tp") else ("local", b.name))
+            elif sc == "local":
+                if b.name == name:
+                    continue
+                if b.d.get("tp") and not addr and depth < 4:
+                    out.extend(_pointer_roots(f, b.name, depth + 1))
                 else:
-                    ck.holds("C19.1", inst, c.where, "bound to caller-local storage", cfg)
+                    out.append(("local", b.name))
+            else:
+                out.append(("global", b.name))
+        else:
+            out.append(("unknown", X.show(d)))
+    return out
 
 
 def _dispatch(ck, P, cfg):
@@ -228,3 +342,257 @@ def _directions(ck, P, cfg):
             n_arg = X.const_int(X.callee_args(c)[2])
             if n_arg is not None and vals is not None and n_arg != len(vals):
                 ck.violated("C19.3", inst + ":random-count", c.where, "the random choice is told %d candidates but %s has %d" % (n_arg, arr, len(vals)), cfg)
+
+
+def _lin(fn, e):
+    """e as (variable name or None, constant offset), or None."""
+    e = Q.resolve_local(fn, e) if X.strip(e).k == "DeclRefExpr" and X.strip(e).d.get("sc") == "local" and not _is_counter(fn, X.strip(e)) else X.strip(e)
+    c = X.const_int(e)
+    if c is not None:
+        return (None, c)
+    if e.k == "DeclRefExpr":
+        return (e.name, 0)
+    if e.k in ("CStyleCastExpr", "ImplicitCastExpr", "ParenExpr"):
+        return _lin(fn, e.children[-1])
+    if e.k == "BinaryOperator" and e.op in ("+", "-"):
+        a, b = _lin(fn, e.children[0]), _lin(fn, e.children[1])
+        if a is None or b is None:
+            return None
+        if e.op == "+" and (a[0] is None or b[0] is None):
+            return (a[0] or b[0], a[1] + b[1])
+        if e.op == "-" and b[0] is None:
+            return (a[0], a[1] - b[1])
+    return None
+
+
+def _is_counter(fn, ref):
+    for v in fn.walk():
+        if v.k == "DeclRefExpr" and v.did == ref.did and X.is_write_target(v):
+            return True
+    return False
+
+
+def _probe_all(ck, P, cfg):
+    f = P.fn_opt("get_random_neighbor")
+    if f is None:
+        ck.broken("C19.4: get_random_neighbor not found")
+        return
+    count_params = [p["name"] for p in f.params if not p.get("tp") and p["name"] != "from"]
+    probes = []
+    for c in f.calls():
+        if c.callee and (c.callee == "GetReceiver" or c.callee.startswith("get_neighbor_")):
+            for a in X.callee_args(c):
+                a = X.strip(a)
+                if a.k == "ArraySubscriptExpr":
+                    probes.append((c, a))
+    ck.expect("C19.4", len(probes), 1, "probe calls in get_random_neighbor")
+    for c, sub in probes:
+        inst = "probe-all@get_random_neighbor"
+        arr = X.strip(sub.children[0])
+        idx = X.strip(sub.children[1])
+        lp = c.parent
+        while lp is not None and lp.k not in ("ForStmt", "WhileStmt", "DoStmt"):
+            lp = lp.parent
+        if lp is None or lp.k != "ForStmt" or idx.k != "DeclRefExpr":
+            ck.inconclusive("C19.4", inst, c.where, "the probe is not inside a counted for loop over the candidate index", cfg)
+            continue
+        init, cond, inc, body = lp.children[0], X.strip(lp.children[2]), X.strip(lp.children[3]), lp.children[4]
+        # start value
+        start = None
+        for v in init.walk():
+            if v.k == "VarDecl" and v.name == idx.name and v.children:
+                start = X.const_int(v.children[-1])
+            elif v.k == "BinaryOperator" and v.op == "=" and X.strip(v.children[0]).k == "DeclRefExpr" and X.strip(v.children[0]).name == idx.name:
+                start = X.const_int(v.children[1])
+        step_ok = (inc is not None and ((inc.k == "UnaryOperator" and inc.op == "++") or (inc.k == "CompoundAssignOperator" and inc.op == "+=" and X.const_int(inc.children[1]) == 1))
+                   and X.strip(inc.children[0]).k == "DeclRefExpr" and X.strip(inc.children[0]).name == idx.name)
+        writes_in_body = [v for v in body.walk() if v.k == "DeclRefExpr" and v.did == idx.did and X.is_write_target(v)]
+        if start is None or not step_ok or writes_in_body or cond is None or cond.k != "BinaryOperator" or cond.op not in ("<", ">", "!=", "<=", ">="):
+            ck.inconclusive("C19.4", inst, lp.where, "loop over the candidates not in the counted form `for(i = 0; i < n; i++)`", cfg)
+            continue
+        l, r = _lin(f, cond.children[0]), _lin(f, cond.children[1])
+        op = cond.op
+        if l is not None and r is not None and l[0] != idx.name and r[0] == idx.name:
+            l, r = r, l
+            op = {"<": ">", ">": "<", "<=": ">=", ">=": "<=", "!=": "!="}[op]
+        if l is None or r is None or l[0] != idx.name or r[0] not in count_params or op not in ("<", "<=", "!="):
+            ck.inconclusive("C19.4", inst, cond.where, "loop bound `%s` not recognised as a comparison of the index with the candidate count" % X.show(cond), cfg)
+            continue
+        # i + a OP n + b   <=>   i OP n + (b - a); `<=` admits one more
+        last = r[1] - l[1] + (1 if op == "<=" else 0)      # the loop visits indices start .. n + last - 1
+        if start > 0 or last < 0:
+            ck.violated("C19.4", inst, cond.where, "the probe loop visits candidates %d .. %s%+d-1 only: a region whose only valid direction ends up in a skipped position gets "
+                        "INVALID_DIRECTION from DIRECTION_RANDOM although a neighbour exists" % (start, r[0], last), cfg)
+            continue
+        if start < 0 or last > 0:
+            ck.violated("C19.4", inst, cond.where, "the probe loop reads candidate positions outside 0 .. %s-1" % r[0], cfg)
+            continue
+        # exits of the loop body: only `break` under a test that the probe result is valid
+        bad_exit = None
+        for v in body.walk():
+            if v.k == "ContinueStmt":
+                bad_exit = bad_exit or v
+            if v.k in ("BreakStmt", "ReturnStmt", "GotoStmt"):
+                own = v.parent
+                while own is not None and own.k not in ("IfStmt", "ForStmt", "WhileStmt", "DoStmt", "SwitchStmt"):
+                    own = own.parent
+                conds = [x for x in own.children if x.k == "BinaryOperator"] if own is not None and own.k == "IfStmt" else []
+                ok = False
+                for t in conds:
+                    t = X.strip(t)
+                    if t.op == "!=" and any(X.const_int(x) is not None and "INVALID_DIRECTION" in (X.strip(x).d.get("me") or X.strip(x).d.get("m") or []) for x in t.children):
+                        ok = True
+                if not ok:
+                    bad_exit = v
+        if bad_exit is not None:
+            ck.inconclusive("C19.4", inst, bad_exit.where, "the probe loop has an exit other than `break` on a valid receiver", cfg)
+            continue
+        ck.holds("C19.4", inst, lp.where, "probes %s[0 .. %s-1], leaving early only with a valid receiver" % (arr.name if arr.k == "DeclRefExpr" else X.show(arr), r[0]), cfg)
+        # the candidates are only permuted
+        if arr.k != "DeclRefExpr":
+            continue
+        stores = [s for s, kind, what in _store_targets(f) if what == arr.name and kind in ("local", "local-pointee")]
+        inst = "permute@get_random_neighbor"
+        pairs_ok = True
+        by_block = {}
+        for s in stores:
+            by_block.setdefault(s.parent.id, []).append(s)
+        for blk in by_block.values():
+            # swap: a[x] = a[y]; a[y] = t  with  t = a[x] declared/assigned earlier in the same block
+            if len(blk) != 2:
+                pairs_ok = False
+                continue
+            s1, s2 = blk
+            t1, v1 = X.strip(s1.children[0]), X.strip(s1.children[1])
+            t2, v2 = X.strip(s2.children[0]), Q.resolve_local(f, s2.children[1])
+            if not (v1.k == "ArraySubscriptExpr" and X.show(v1) == X.show(t2) and v2 is not None and X.show(v2) == X.show(t1) and s1.op == "=" and s2.op == "="):
+                pairs_ok = False
+        seeded = [c2 for c2 in f.calls() if c2.callee in ("memcpy", "__builtin_memcpy", "__builtin___memcpy_chk") and X.strip(X.callee_args(c2)[0]).k == "DeclRefExpr" and X.strip(X.callee_args(c2)[0]).name == arr.name]
+        if arr.d.get("sc") == "param":
+            ck.holds("C19.4", inst, f.where, "probes the caller's candidate array itself", cfg) if not stores else ck.inconclusive("C19.4", inst, stores[0].where, "stores into the caller's candidate array", cfg)
+        elif not seeded:
+            ck.inconclusive("C19.4", inst, f.where, "how `%s` is filled from the candidates is not recognised" % arr.name, cfg)
+        elif pairs_ok:
+            ck.holds("C19.4", inst, seeded[0].where, "`%s` is a copy of the candidates, changed only by %d pairwise swap(s)" % (arr.name, len(by_block)), cfg)
+        else:
+            ck.inconclusive("C19.4", inst, stores[0].where, "stores into `%s` are not pairwise swaps: it may no longer hold every candidate" % arr.name, cfg)
+
+
+def _counts(ck, P, cfg):
+    cd = P.fn("CountDirections")
+    sw = [s for s in cd.walk() if s.k == "SwitchStmt" and s.d.get("enum") == "topology_geometry"]
+    if len(sw) != 1:
+        ck.inconclusive("C19.5", "count@CountDirections", cd.where, "no single switch on the geometry", cfg)
+        return
+    bodies = T.case_bodies(sw[0])
+    dirs = {k: v for k, v in P.enum("topology_direction").items() if k != "DIRECTION_RANDOM"}
+    n = 0
+    for gname, hname in sorted(list(GRID_HELPERS.items())):
+        inst = "count:%s" % gname
+        h = P.fn(hname)
+        try:
+            valid = T.helper_validity(h, dirs)
+        except T.Unknown as u:
+            ck.inconclusive("C19.5", inst, u.node.where if u.node is not None else h.where, "%s: %s" % (hname, u.why), cfg)
+            continue
+        if gname not in bodies:
+            ck.inconclusive("C19.5", inst, sw[0].where, "no case for %s" % gname, cfg)
+            continue
+        n += 1
+        # a helper that moves along an axis it does not validate can return a region outside the map
+        axis_bad = None
+        for d, (per_p, bounded) in valid.items():
+            for p, (dx, dy) in per_p.items():
+                if (dx and "x" not in bounded) or (dy and "y" not in bounded):
+                    axis_bad = d
+        if axis_bad:
+            ck.violated("C19.5", "inside:%s" % hname, h.where, "%s moves along an axis for %s whose result it does not test against the map size: GetReceiver can return a region outside the topology" % (hname, axis_bad), cfg)
+            continue
+        ck.holds("C19.5", "inside:%s" % hname, h.where, "every move of %s is by one cell and tested against the map size (or taken modulo it)" % hname, cfg)
+        bad = None
+        unk = None
+        for a in T.assignments():
+            want = sum(1 for d, (per_p, bounded) in valid.items() if T.is_valid(per_p, bounded, a))
+            ab = T.Abs(cd, a)
+            try:
+                res = ab.run(bodies[gname])
+            except T.Unknown as u:
+                unk = u
+                break
+            if res is None or res[0] != "ret" or not isinstance(res[1], int):
+                unk = T.Unknown(bodies[gname][0], "the case does not return a number")
+                break
+            if res[1] != want and bad is None:
+                w, hh, x, y = T.witness(a)
+                valid_dirs = sorted(d for d, (per_p, bounded) in valid.items() if T.is_valid(per_p, bounded, a))
+                bad = (a, "for a region in %s CountDirections returns %d but %s has a valid receiver for %d fixed direction(s) %s — e.g. width %d, height %d, region %d (x=%d, y=%d)"
+                       % (T.describe(a), res[1], hname, want, valid_dirs, w, hh, y * w + x, x, y))
+        if unk is not None:
+            ck.inconclusive("C19.5", inst, unk.node.where if unk.node is not None else cd.where, "CountDirections/%s: %s" % (gname, unk.why), cfg)
+        elif bad:
+            ck.violated("C19.5", inst, bodies[gname][0].where, bad[1], cfg)
+        else:
+            ck.holds("C19.5", inst, bodies[gname][0].where, "CountDirections equals the number of valid fixed directions of %s on all %d attainable combinations of (first/last column, first/last row, row parity)" % (hname, len(T.assignments())), cfg)
+    ck.expect("C19.5", n, 3, "grid geometries compared")
+    # rings: the count is the number of fixed directions the helper answers
+    for gname, hname in (("TOPOLOGY_RING", "get_neighbor_ring"), ("TOPOLOGY_BIDRING", "get_neighbor_bidring")):
+        inst = "count:%s" % gname
+        h = P.fn_opt(hname)
+        if h is None or gname not in bodies:
+            ck.inconclusive("C19.5", inst, cd.where, "%s / its case not found" % hname, cfg)
+            continue
+        try:
+            answered = []
+            for d, v in sorted(dirs.items()):
+                ab = T.Abs(h, {"classify_return": True}, env={"direction": v})
+                res = ab.run([c for c in h.root.children])
+                if res is None or res[0] != "ret":
+                    raise T.Unknown(h.root, "no return reached for %s" % d)
+                if res[1] == "VALID":
+                    answered.append(d)
+            res = T.Abs(cd, {}).run(bodies[gname])
+            if res is None or res[0] != "ret" or not isinstance(res[1], int):
+                raise T.Unknown(bodies[gname][0], "the case does not return a number")
+        except T.Unknown as u:
+            ck.inconclusive("C19.5", inst, u.node.where if u.node is not None else h.where, "%s: %s" % (hname, u.why), cfg)
+            continue
+        if res[1] != len(answered):
+            ck.violated("C19.5", inst, bodies[gname][0].where, "CountDirections returns %d but %s answers %d fixed direction(s) %s" % (res[1], hname, len(answered), answered), cfg)
+        else:
+            ck.holds("C19.5", inst, bodies[gname][0].where, "returns %d = the fixed directions %s answers %s" % (res[1], hname, answered), cfg)
+    # star, mesh: number of other regions / one
+    for gname, cases in (("TOPOLOGY_FCMESH", [({}, ("R", -1))]), ("TOPOLOGY_STAR", [({"Z": True}, ("R", -1)), ({"Z": False}, 1)])):
+        inst = "count:%s" % gname
+        if gname not in bodies:
+            ck.inconclusive("C19.5", inst, cd.where, "case not found", cfg)
+            continue
+        try:
+            got = [(a, T.Abs(cd, a).run(bodies[gname]), want) for a, want in cases]
+        except T.Unknown as u:
+            ck.inconclusive("C19.5", inst, u.node.where if u.node is not None else cd.where, u.why, cfg)
+            continue
+        wrong = [(a, r, want) for a, r, want in got if r is None or r[0] != "ret" or r[1] != want]
+        if wrong:
+            a, r, want = wrong[0]
+            ck.violated("C19.5", inst, bodies[gname][0].where, "CountDirections returns %s for %s, expected %s" % (_symshow(r[1] if r else None), "the centre" if a.get("Z") else "a leaf" if "Z" in a else "a region", _symshow(want)), cfg)
+        else:
+            ck.holds("C19.5", inst, bodies[gname][0].where, "returns " + ", ".join("%s%s" % (_symshow(w), " (centre)" if a.get("Z") else " (leaf)" if "Z" in a else "") for a, r, w in got), cfg)
+    # graph: the length of the adjacency list of `from`
+    inst = "count:TOPOLOGY_GRAPH"
+    rets = [s for st in bodies.get("TOPOLOGY_GRAPH", []) for s in st.walk() if s.k == "ReturnStmt"]
+    if len(rets) != 1:
+        ck.inconclusive("C19.5", inst, cd.where, "graph case not a single return", cfg)
+    else:
+        e = rets[0].children[0]
+        names = {x.name for x in e.walk() if x.k in ("MemberExpr", "DeclRefExpr")}
+        macro = any("list_size" in ((x.d.get("m") or []) + (x.d.get("me") or [])) for x in e.walk())
+        if macro and {"adjacency", "from", "topology"} <= names:
+            ck.holds("C19.5", inst, rets[0].where, "returns list_size(topology->adjacency[from])", cfg)
+        else:
+            ck.violated("C19.5", inst, rets[0].where, "the graph count is not the size of the adjacency list of `from`", cfg)
+
+
+def _symshow(v):
+    if isinstance(v, tuple):
+        return {"R": "regions", "W": "width", "H": "height", "F": "from"}.get(v[0], v[0]) + ("%+d" % v[1] if v[1] else "")
+    return str(v)
